@@ -172,7 +172,7 @@ class Effects:
 
         arrs = set(array_params(fi))
         for ev in w.events:
-            if ev.kind == "bind" and ev.aug:
+            if ev.kind == "bind" and ev.aug and isinstance(ev.stmt, ast.AugAssign) and not getattr(ev.stmt, "_from_assign", False):
                 # x += e on an ndarray is in place; the old value is the left operand of the new term
                 new = ev.value
                 old = None
